@@ -119,6 +119,13 @@ class Network(MutableMapping):
         for node in self.nodes.values():
             if hasattr(node, "pdo"):
                 node.pdo.stop()
+            # The other periodic transmissions end with the bus as well,
+            # their owners must not stop them again later
+            if hasattr(node.nmt, "stop_node_guarding"):
+                node.nmt.stop_node_guarding()
+            if hasattr(node.nmt, "stop_heartbeat"):
+                node.nmt.stop_heartbeat()
+        self.sync.stop()
         if self.notifier is not None:
             self.notifier.stop(self.NOTIFIER_SHUTDOWN_TIMEOUT)
         if self.bus is not None:
